@@ -159,6 +159,16 @@ CHECKS["C13"] = dict(
          "tree must be byte-identical to the tree of the canonical input (false attributes removed); the real macro must still export every function (nm).",
     note="Trusted: the three-line boolean evaluator, the backend-name truth table, probed supports= values; presence is judged by distinctive tokens in generated files.")
 
+CHECKS["C14"] = dict(
+    category="model_checking", design="§2 C14",
+    technique="explicit-state exploration of edit histories (BFS over permutation / insert / delete / non-bridge edits from 8 seed bridges) with the real binary re-run in fresh processes for all 7 backends; invariants checked on every transition",
+    text="From seven hand-written seed bridges and the repository's feature_tests crate, every single edit (quick) / every edit sequence of length 2-3 (thorough) over the alphabet {swap adjacent "
+         "type declarations, move an impl, swap bridge modules, insert/delete an unreferenced type with a first/middle/last name, add a non-bridge item of 7 kinds} is applied; states are "
+         "deduplicated on exact text only. On every transition and for every backend: permutations and non-bridge edits must leave the whole output tree byte-identical, insert/delete must "
+         "leave every other type's file identical, and every state is generated in 3 fresh processes that must agree.",
+    note="Trusted: the item scanner (asserted to reproduce the source byte-exactly, else exit 2), sha1 of output files. Hash-seed independence is a repeated trial (3-12 fresh processes), not an "
+         "enumeration. Swapping two impl blocks of the same type (which reorders methods) is outside the statement and excluded.")
+
 CHECKS["C17"] = dict(
     category="model_checking", design="§2 C17",
     technique="exhaustive enumeration of the configuration lattice (subsets of 3 sources x scoping x spelling x backend) through the real diplomat-tool binary against a reference precedence function",
